@@ -693,9 +693,12 @@ class SystemManager:
             else:
                 return
 
-        for sys in self.execution_queue:  # Simple execute cycle
+        # Iterate over a snapshot so that systems added/removed by a system do not shift the cycle
+        for sys in list(self.execution_queue):  # Simple execute cycle
             if not self.model.is_running():
                 break
+            if self.systems.get(sys.id) is not sys:  # Removed earlier in this timestep
+                continue
             if sys.start <= self.timestep <= sys.end and (sys.start - self.timestep) % sys.frequency == 0:
                 sys.execute()
         self.timestep += 1
